@@ -98,6 +98,7 @@ func (lf *linFn) canon(v ssa.Value) ssa.Value {
 	if lf.canonM == nil {
 		lf.canonM = map[ssa.Value]ssa.Value{}
 		var loads []*ssa.UnOp
+		var volatile []*ssa.UnOp
 		var fields []*ssa.Field
 		var convs []*ssa.Convert
 		var bins []*ssa.BinOp
@@ -109,6 +110,18 @@ func (lf *linFn) canon(v ssa.Value) ssa.Value {
 						continue
 					}
 					if fa, isFA := x.X.(*ssa.FieldAddr); !isFA || !(readOnlyLocalAddr(x.X) || lf.stableField(fa)) {
+						// any other location: a second load of the same address denotes the same quantity as a first
+						// one that dominates it when nothing that may write memory lies on a path between the two
+						// (no CSE in go/ssa: `p := &s[i]; if n < int(p.f)+2 {..}; use(p.f)` loads p.f twice)
+						for _, y := range volatile {
+							if sameAddr(y.X, x.X) && noClobberBetween(y, x) {
+								lf.canonM[x] = y
+								break
+							}
+						}
+						if _, done := lf.canonM[x]; !done {
+							volatile = append(volatile, x)
+						}
 						continue
 					}
 					rep := ssa.Value(x)
@@ -170,6 +183,109 @@ func (lf *linFn) canon(v ssa.Value) ssa.Value {
 		return r
 	}
 	return v
+}
+
+// noClobberBetween: l1 dominates l2 and no instruction that may write memory (a store that is not to a local whose
+// address does not escape, a call other than a pure builtin, a map update, send, go, defer) lies on a path from l1 to l2
+// that does not pass l1 again.
+func noClobberBetween(l1, l2 *ssa.UnOp) bool {
+	b1, b2 := l1.Block(), l2.Block()
+	clobbers := func(in ssa.Instruction) bool {
+		switch x := in.(type) {
+		case *ssa.Store:
+			if al, ok := x.Addr.(*ssa.Alloc); ok && !al.Heap {
+				return false
+			}
+			return true
+		case *ssa.Call:
+			if bi, ok := x.Call.Value.(*ssa.Builtin); ok {
+				switch bi.Name() {
+				case "len", "cap", "min", "max", "real", "imag", "complex":
+					return false
+				}
+			}
+			return true
+		case *ssa.MapUpdate, *ssa.Send, *ssa.Go, *ssa.Defer, *ssa.RunDefers, *ssa.Select, *ssa.Panic:
+			return true
+		}
+		return false
+	}
+	i1, i2 := instrIndex(l1), instrIndex(l2)
+	if b1 == b2 {
+		if i1 >= i2 {
+			return false
+		}
+		for _, in := range b1.Instrs[i1+1 : i2] {
+			if clobbers(in) {
+				return false
+			}
+		}
+		return true
+	}
+	if !b1.Dominates(b2) {
+		return false
+	}
+	// blocks on a path from b1 to b2 not passing b1 again: forward from b1's successors, backward from b2's predecessors
+	fwd := map[*ssa.BasicBlock]bool{}
+	var f func(b *ssa.BasicBlock)
+	f = func(b *ssa.BasicBlock) {
+		if b == b1 || fwd[b] {
+			return
+		}
+		fwd[b] = true
+		if b == b2 {
+			return
+		}
+		for _, s := range b.Succs {
+			f(s)
+		}
+	}
+	for _, s := range b1.Succs {
+		f(s)
+	}
+	bwd := map[*ssa.BasicBlock]bool{}
+	var g func(b *ssa.BasicBlock)
+	g = func(b *ssa.BasicBlock) {
+		if b == b1 || bwd[b] {
+			return
+		}
+		bwd[b] = true
+		for _, pr := range b.Preds {
+			g(pr)
+		}
+	}
+	for _, pr := range b2.Preds {
+		g(pr)
+	}
+	for _, in := range b1.Instrs[i1+1:] {
+		if clobbers(in) {
+			return false
+		}
+	}
+	for _, in := range b2.Instrs[:i2] {
+		if clobbers(in) {
+			return false
+		}
+	}
+	for b := range fwd {
+		if b == b2 || !bwd[b] {
+			continue
+		}
+		for _, in := range b.Instrs {
+			if clobbers(in) {
+				return false
+			}
+		}
+	}
+	// b2 inside a cycle that does not pass b1: its own tail may run before l2 executes again
+	if bwd[b2] && fwd[b2] {
+		for _, in := range b2.Instrs[i2:] {
+			if clobbers(in) {
+				return false
+			}
+		}
+	}
+	return true
 }
 
 func sameOperand(lf *linFn, a, b ssa.Value) bool {
@@ -1083,6 +1199,155 @@ func (px *linProver) ctx(f *ssa.Function) *linFn {
 	return lf
 }
 
+// fresh: the context of f with the post-conditions of the calls it makes and its loop invariants (re)computed.
+func (px *linProver) fresh(f *ssa.Function) *linFn {
+	lf := px.ctx(f)
+	lf.extra, lf.extraAt = nil, nil
+	lf.addCallFacts()
+	lf.addLoopInvariants()
+	return lf
+}
+
+// provedAtCallSites: an obligation of an unexported helper that its own tests do not establish is proved in the context of
+// each of its call sites instead — the facts valid at the call (in the caller's values), the bindings parameter = argument
+// (integers by value, slices by length) and the helper's own facts together entail the goal. The helper must only be called
+// statically from the module (its value is not passed around), so the call sites are all there are. One level: the callers'
+// own callers are not consulted.
+func (px *linProver) provedAtCallSites(f *ssa.Function, o linObl) bool {
+	if f.Object() == nil || f.Object().Exported() || len(f.Blocks) == 0 || len(f.Blocks[0].Instrs) == 0 {
+		return false
+	}
+	node := px.p.CG().Nodes[f]
+	if node == nil || len(node.In) == 0 {
+		return false
+	}
+	lf := px.ctx(f)
+	entry := f.Blocks[0].Instrs[0]
+	if o.in == entry {
+		return false
+	}
+	for _, e := range node.In {
+		if e.Site == nil || e.Site.Common().StaticCallee() != f || !px.p.inModule(fnPkg(e.Caller.Func)) || e.Caller.Func == f {
+			return false
+		}
+		args := e.Site.Common().Args
+		if len(args) != len(f.Params) {
+			return false
+		}
+		clf := px.fresh(e.Caller.Func)
+		facts := clf.factsAt(e.Site)
+		for i, par := range f.Params {
+			var d *lin
+			if _, isSlice := par.Type().Underlying().(*types.Slice); isSlice {
+				d = linAtom(atom{par, true}).sub(clf.lenForm(args[i], 0))
+			} else if _, _, isInt := intKind(par.Type()); isInt {
+				d = linAtom(atom{par, false}).sub(clf.form(args[i], 0))
+			} else {
+				continue
+			}
+			facts = append(facts, d, linConst(0).sub(d))
+		}
+		n := len(lf.extra)
+		for _, ft := range facts {
+			lf.extra = append(lf.extra, ft)
+			lf.extraAt = append(lf.extraAt, entry)
+		}
+		ok := lf.proveAt(o.goal, o.in, 0)
+		lf.extra, lf.extraAt = lf.extra[:n], lf.extraAt[:n]
+		if !ok {
+			return false
+		}
+	}
+	return true
+}
+
+// inheritsNotClaimed: the underivable access of an unexported helper is an access to one of its parameters, and at every
+// call site (all static, all in functions listed as not claimed) the argument bound to that parameter is one of the
+// accesses that were reviewed as underivable in the caller: the helper is a piece of a reviewed function that was moved
+// out of it, and inherits its status (not claimed: nothing is decided about it).
+func (px *linProver) inheritsNotClaimed(f *ssa.Function, o linObl, excluded map[string]string) bool {
+	if f.Object() == nil || f.Object().Exported() {
+		return false
+	}
+	var base ssa.Value
+	switch in := o.in.(type) {
+	case *ssa.IndexAddr:
+		base = in.X
+	case *ssa.Slice:
+		base = in.X
+	case *ssa.Call:
+		if n := len(in.Common().Args); n > 0 {
+			base = in.Common().Args[n-1]
+		}
+	}
+	for base != nil {
+		if sl, ok := base.(*ssa.Slice); ok {
+			base = sl.X
+			continue
+		}
+		break
+	}
+	// the accessed slice is a parameter, or a field (path) of a parameter — a receiver the callers pass through
+	fieldPath := "" // ".instructions" for p.instructions
+	root := base
+	for {
+		if u, ok := root.(*ssa.UnOp); ok && u.Op == token.MUL {
+			root = u.X
+			continue
+		}
+		if fa, ok := root.(*ssa.FieldAddr); ok {
+			if fo := fieldOf(fa); fo != nil {
+				fieldPath = "." + fo.Name() + fieldPath
+			}
+			root = fa.X
+			continue
+		}
+		break
+	}
+	par, ok := root.(*ssa.Parameter)
+	if !ok {
+		return false
+	}
+	pi := -1
+	for i, q := range f.Params {
+		if q == par {
+			pi = i
+		}
+	}
+	node := px.p.CG().Nodes[f]
+	if pi < 0 || node == nil || len(node.In) == 0 {
+		return false
+	}
+	for _, e := range node.In {
+		if e.Site == nil || e.Site.Common().StaticCallee() != f || pi >= len(e.Site.Common().Args) {
+			return false
+		}
+		g := px.p.FnName(e.Caller.Func)
+		if _, isExcl := excluded[g]; !isExcl {
+			return false
+		}
+		arg := e.Site.Common().Args[pi]
+		d := sliceDescr(arg, 0)
+		if fieldPath != "" {
+			// the same field of the object the caller passes on
+			if d == "" {
+				return false
+			}
+			d += fieldPath
+		}
+		found := false
+		for _, t := range rgenNotClaimedAccess[g] {
+			if t == d {
+				found = true
+			}
+		}
+		if !found {
+			return false
+		}
+	}
+	return true
+}
+
 // derivePost: for functions returning an int count with an error, try to prove count <= len(param) on every return.
 func (px *linProver) derivePost(fns []*ssa.Function) {
 	for round := 0; round < 4; round++ {
@@ -1257,6 +1522,9 @@ func ruleGenY(p *Prog, r *Report, rule string, sel func(f *ssa.Function) bool, e
 						continue
 					}
 				}
+				if px.provedAtCallSites(f, o) {
+					continue
+				}
 				if !tolerated[oblDescr(o)] {
 					badX = &obls[i]
 					break
@@ -1298,6 +1566,14 @@ func ruleGenY(p *Prog, r *Report, rule string, sel func(f *ssa.Function) bool, e
 				if okPre {
 					continue
 				}
+			}
+			// or in the context of each call site of the (unexported) helper
+			if px.provedAtCallSites(f, o) {
+				continue
+			}
+			if px.inheritsNotClaimed(f, o, excluded) {
+				r.Instance(rule+"(not claimed)", key+"/"+oblDescr(o)+": helper of a function listed as not claimed, for an access reviewed there")
+				continue
 			}
 			bad = &obls[i]
 			break
